@@ -23,6 +23,7 @@ type opSpec struct {
 type seqScenario struct {
 	Type     string     `json:"type"` // "seq"
 	Kind     string     `json:"kind"` // mutable | immutable
+	Env      envSpec    `json:"env"`
 	Versions []treeSpec `json:"versions"`
 	Ops      []opSpec   `json:"ops"`
 }
@@ -104,14 +105,14 @@ func seqOracle(r *h.Run, sc seqScenario, obs []opObs) {
 		case "fetch":
 			if o.Res == "ok" {
 				if o.Installed < 0 || !stored[o.Installed] {
-					r.Fail("fetch-success-not-a-stored-version:"+sc.Kind+":"+o.Damage,
+					r.Fail("fetch-success-not-a-stored-version:"+sc.Kind+":"+o.Damage+sc.Env.sig(),
 						fmt.Sprintf("op %d: Fetch reported success but the destination holds %s", i, o.Damage), sc)
 				} else if visible >= 0 && o.Installed != visible {
-					r.Fail("store-success-not-visible:"+sc.Kind+":other-version",
+					r.Fail("store-success-not-visible:"+sc.Kind+":other-version"+sc.Env.sig(),
 						fmt.Sprintf("op %d: Store(v%d) reported success, a later Fetch installed v%d", i, visible, o.Installed), sc)
 				}
 			} else if visible >= 0 && op.Fault == nil && !(dirty && sc.Kind == "mutable") && !o.Crashed {
-				r.Fail("store-success-not-visible:"+sc.Kind+":fetch-fails-"+o.Res,
+				r.Fail("store-success-not-visible:"+sc.Kind+":fetch-fails-"+o.Res+sc.Env.sig(),
 					fmt.Sprintf("op %d: Store(v%d) reported success, a later fault-free Fetch fails (%s)", i, visible, o.Res), sc)
 			}
 			if o.Crashed {
@@ -179,6 +180,7 @@ func label(kind string, op opSpec, trace []shim.Op) string {
 
 func runSeq(r *h.Run, sc seqScenario, emit bool) []opObs {
 	r.Eval()
+	setEnv(sc.Env)
 	w := newWorld(sc.Versions)
 	obs := make([]opObs, len(sc.Ops))
 	for i, op := range sc.Ops {
@@ -209,6 +211,7 @@ func runSeq(r *h.Run, sc seqScenario, emit bool) []opObs {
 		}
 	}
 	r.Count("seq:" + sc.Kind)
+	r.Count("env:layout=" + sc.Env.Layout + ",ignore-list=" + fmt.Sprint(sc.Env.Ignore != ""))
 	for i, op := range sc.Ops {
 		if op.Fault != nil {
 			fk := op.Fault.Kind
